@@ -11,6 +11,7 @@ package main
 
 import (
 	"bytes"
+	"encoding/binary"
 	"encoding/json"
 	"flag"
 	"fmt"
@@ -48,6 +49,9 @@ type workerCfg struct {
 	Known      []evid.Finding
 	RaceBin    string
 	RaceBudget time.Duration
+	Journal    string
+	EmitAt     int64
+	EmitOut    string
 }
 
 type meta struct {
@@ -87,13 +91,16 @@ func main() {
 	noEvidence := fs.Bool("no-evidence", false, "do not write the evidence file (development sweeps)")
 	raceBin := fs.String("racebin", "", "simcheck built with -race against the un-instrumented copy (C17 race tier)")
 	raceBudget := fs.Duration("race-budget", 0, "time budget of the race tier (0 = tier default)")
+	journal := fs.String("journal", "", "worker: file receiving the number of the case about to run")
+	emitAt := fs.Int64("emit-at", -1, "worker: regenerate the case stream and write case number N to -emit-out instead of executing")
+	emitOut := fs.String("emit-out", "", "see -emit-at")
 	fs.Parse(os.Args[2:])
 
 	known, err := evid.LoadFindings(filepath.Join(*verif, "known_findings.txt"))
 	if err != nil {
 		die2("%v", err)
 	}
-	cfg := workerCfg{Prop: *prop, Tier: *tier, Seed: *seed, W: *w, NW: *nw, Budget: *budget, Repo: *repo, Scratch: *scratch, Verif: *verif, Known: known, RaceBin: *raceBin, RaceBudget: *raceBudget}
+	cfg := workerCfg{Prop: *prop, Tier: *tier, Seed: *seed, W: *w, NW: *nw, Budget: *budget, Repo: *repo, Scratch: *scratch, Verif: *verif, Known: known, RaceBin: *raceBin, RaceBudget: *raceBudget, Journal: *journal, EmitAt: *emitAt, EmitOut: *emitOut}
 
 	switch cmd {
 	case "worker":
@@ -135,7 +142,7 @@ func main() {
 		}
 		json.NewEncoder(os.Stdout).Encode(res)
 	case "raceworker":
-		st := callsim.RaceWorker(callsim.Config{Prop: "C17", Tier: *tier, Seed: *seed, W: *w, NW: *nw, Deadline: time.Now().Add(*budget), RepoDir: *repo, Known: known})
+		st := callsim.RaceWorker(callsim.Config{Prop: "C17", Tier: *tier, Seed: *seed, W: *w, NW: *nw, Deadline: time.Now().Add(*budget), RepoDir: *repo, Known: known, Journal: *journal})
 		if err := st.WriteWorker(*out); err != nil {
 			die2("%v", err)
 		}
@@ -187,6 +194,9 @@ func execFresh(prop string, raw json.RawMessage, cfg workerCfg) (sig, what strin
 	select {
 	case err := <-done:
 		if err != nil {
+			if strings.Contains(se.String(), "fatal error:") && !strings.Contains(se.String(), "HARNESS-TROUBLE") {
+				return "process-crash", "re-executing the case in a fresh process kills it: " + fatalLine(se.String()), nil
+			}
 			return "", "", fmt.Errorf("exec failed: %v: %s", err, tail(se.String(), 2000))
 		}
 	case <-time.After(300 * time.Second):
@@ -281,7 +291,7 @@ func run(cfg workerCfg, noEvidence bool) int {
 		pre := filepath.Join(cfg.Scratch, fmt.Sprintf("worker-%s-%d", cfg.Prop, w))
 		cmd := exec.Command(self, "worker", "-prop", cfg.Prop, "-tier", cfg.Tier, "-seed", fmt.Sprint(cfg.Seed),
 			"-verif", cfg.Verif, "-repo", cfg.Repo, "-scratch", cfg.Scratch, "-workers", fmt.Sprint(cfg.NW), "-w", fmt.Sprint(w),
-			"-out", pre, "-budget", cfg.Budget.String())
+			"-out", pre, "-budget", cfg.Budget.String(), "-journal", pre+".journal")
 		se := &bytes.Buffer{}
 		cmd.Stderr = se
 		cmd.Stdout = se
@@ -302,6 +312,13 @@ func run(cfg workerCfg, noEvidence bool) int {
 	trouble := false
 	for i, p := range procs {
 		if err := p.cmd.Wait(); err != nil {
+			// A worker killed by a fatal runtime error of the code under test (out of memory on a forged size,
+			// concurrent map writes, stack exhaustion) is a finding, not harness trouble - if the case that killed it
+			// can be regenerated from the journal and kills a fresh process too.
+			if v := crashCase(cfg, i, p.pre, p.se.String()); v != nil {
+				total.Violations = append(total.Violations, *v)
+				continue
+			}
 			fmt.Fprintf(os.Stderr, "HARNESS-TROUBLE: worker %d: %v\n%s\n", i, err, tail(p.se.String(), 4000))
 			trouble = true
 			continue
@@ -328,7 +345,7 @@ func run(cfg workerCfg, noEvidence bool) int {
 		for w := 0; w < cfg.NW; w++ {
 			pre := filepath.Join(cfg.Scratch, fmt.Sprintf("raceworker-%d", w))
 			cmd := exec.Command(cfg.RaceBin, "raceworker", "-seed", fmt.Sprint(cfg.Seed), "-tier", cfg.Tier, "-verif", cfg.Verif, "-repo", cfg.Repo,
-				"-scratch", cfg.Scratch, "-workers", fmt.Sprint(cfg.NW), "-w", fmt.Sprint(w), "-out", pre, "-budget", rb.String())
+				"-scratch", cfg.Scratch, "-workers", fmt.Sprint(cfg.NW), "-w", fmt.Sprint(w), "-out", pre, "-budget", rb.String(), "-journal", pre+".journal")
 			se := &bytes.Buffer{}
 			cmd.Stderr, cmd.Stdout = se, se
 			cmd.Env = append(os.Environ(), "GOMAXPROCS=4", fmt.Sprintf("GORACE=log_path=%s halt_on_error=0 exitcode=0", filepath.Join(cfg.Scratch, fmt.Sprintf("racelog-%d", w))))
@@ -344,6 +361,16 @@ func run(cfg workerCfg, noEvidence bool) int {
 		})
 		for i, p := range rprocs {
 			if err := p.cmd.Wait(); err != nil {
+				if strings.Contains(p.se.String(), "fatal error:") {
+					if jb, jerr := os.ReadFile(p.pre + ".journal"); jerr == nil && len(jb) >= 8 {
+						var rcase callsim.RaceCase
+						rcase.Race.Seed, rcase.Race.Index, rcase.Race.Repeat = cfg.Seed, int64(binary.LittleEndian.Uint64(jb)), 80
+						rcase.Race.Report = tail(p.se.String(), 3000)
+						raw, _ := json.Marshal(&rcase)
+						total.Violations = append(total.Violations, evid.Violation{Property: cfg.Prop, Signature: "process-crash", What: "free-running concurrent Runs killed the process: " + fatalLine(p.se.String()), Case: raw})
+						continue
+					}
+				}
 				fmt.Fprintf(os.Stderr, "HARNESS-TROUBLE: race worker %d: %v\n%s\n", i, err, tail(p.se.String(), 3000))
 				trouble = true
 				continue
@@ -544,4 +571,41 @@ func isRaceCase(raw json.RawMessage) bool {
 	}
 	_, ok := m["race"]
 	return ok
+}
+
+// fatalLine extracts the "fatal error: ..." line of a Go runtime abort.
+func fatalLine(stderr string) string {
+	for _, l := range strings.Split(stderr, "\n") {
+		if strings.Contains(l, "fatal error:") {
+			return strings.TrimSpace(l)
+		}
+	}
+	return "(no fatal error line)"
+}
+
+// crashCase: worker w died. If it died of a Go fatal error, regenerate the case it was executing (the case
+// stream is a pure function of seed, tier and worker index) and return it as a violation candidate; the usual
+// fresh-process confirmation then decides whether it is reported.
+func crashCase(cfg workerCfg, w int, pre, stderr string) *evid.Violation {
+	if !strings.Contains(stderr, "fatal error:") {
+		return nil
+	}
+	jb, err := os.ReadFile(pre + ".journal")
+	if err != nil || len(jb) < 8 {
+		return nil
+	}
+	seq := int64(binary.LittleEndian.Uint64(jb))
+	self, _ := os.Executable()
+	out := pre + ".emit"
+	os.Remove(out)
+	cmd := exec.Command(self, "worker", "-prop", cfg.Prop, "-tier", cfg.Tier, "-seed", fmt.Sprint(cfg.Seed), "-verif", cfg.Verif, "-repo", cfg.Repo,
+		"-scratch", cfg.Scratch, "-workers", fmt.Sprint(cfg.NW), "-w", fmt.Sprint(w), "-out", pre+".emitstats", "-budget", "1h", "-emit-at", fmt.Sprint(seq), "-emit-out", out)
+	if err := cmd.Run(); err != nil {
+		return nil
+	}
+	raw, err := os.ReadFile(out)
+	if err != nil {
+		return nil
+	}
+	return &evid.Violation{Property: cfg.Prop, Signature: "process-crash", What: "the worker executing this case was killed by the Go runtime: " + fatalLine(stderr), Case: raw}
 }
